@@ -60,6 +60,8 @@ var c16LineFaults = []struct{ Name, Line string }{
 	{"stored name of another file", "##!=> shared"},
 	{"store without name", "##!=<"},
 	{"unsupported flag", "##!+ x"},
+	{"unsupported flag (upper-case form of a supported one)", "##!+ I"},
+	{"unsupported flag (mixed case)", "##!+ iS"},
 	{"odd replacement list", "##!> include inc -- a"},
 	{"flags inside an include", "##!> include flagged"},
 }
@@ -83,6 +85,10 @@ func c16Cases() []c16Case {
 			return "##!> include inc\n" + line + "\nbar\n"
 		case "in the second include":
 			return "##!> include inc\n##!> include faulty\nbar\n"
+		case "in an include that is included with suffix pairs":
+			return "foo\n##!> include faulty -- a b\nbar\n"
+		case "in an include-except file with suffix pairs":
+			return "foo\n##!> include-except faulty ex -- a b\nbar\n"
 		case "in an include inside a block":
 			return "##!> assemble\nfoo\n##!> include faulty\n##!<\nbar\n"
 		default:
@@ -90,14 +96,14 @@ func c16Cases() []c16Case {
 		}
 	}
 	for _, f := range c16LineFaults {
-		for _, where := range []string{"top level", "in a block", "in an include", "in a nested block", "after a good include", "in the second include", "in an include inside a block", "alone before a marker", "alone before a store marker"} {
+		for _, where := range []string{"top level", "in a block", "in an include", "in a nested block", "after a good include", "in the second include", "in an include inside a block", "alone before a marker", "alone before a store marker", "in an include that is included with suffix pairs", "in an include-except file with suffix pairs"} {
 			if strings.HasPrefix(where, "alone before") && !strings.HasPrefix(f.Name, "entry RE2") {
 				continue // only entries can stand alone before a marker
 			}
-			if (where == "in a block" || where == "in a nested block") && (f.Name == "extra end marker" || f.Name == "missing end marker" || f.Name == "unsupported flag") {
+			if (where == "in a block" || where == "in a nested block") && (f.Name == "extra end marker" || f.Name == "missing end marker" || strings.HasPrefix(f.Name, "unsupported flag")) {
 				continue // position makes it a different (or no) fault
 			}
-			if strings.Contains(where, "include") && where != "after a good include" && (f.Name == "unsupported flag" || f.Name == "flags inside an include") {
+			if strings.Contains(where, "include") && where != "after a good include" && (strings.HasPrefix(f.Name, "unsupported flag") || f.Name == "flags inside an include") {
 				continue
 			}
 			mk := func(file string) core.Tree {
